@@ -57,6 +57,9 @@ impl StateMachine<'_> {
         // (it connects the plus_file and minus_file),
         // and to call fn handle_generic_diff_header_header_line directly.
         if self.config.color_only {
+            // The line is written directly to the writer: what is waiting in the output
+            // buffer (the last lines of the previous file of a plain `diff -u`) comes first.
+            self.painter.emit()?;
             write_generic_diff_header_header_line(
                 &self.line,
                 &self.raw_line,
